@@ -22,6 +22,12 @@ CHECKS = {
  "C06": ("exploration", "reference-predicate oracle over generated guardian lists and every single-step corruption",
          "The real VerifySignatures is called on lists of length 0..255 (quick: 10 lengths, thorough: all) with 0-2 repeated addresses, valid ascending signature subsets and each corruption from the property (body flip, swap, shuffle, duplicate, re-index, outsider key, recovery byte, r/s zero, high-s twin, drop); boolean compared with an independent reference; both directions of the iff are counted; panics recovered.",
          "secp256k1 recovery and Keccak are shared with the code under test.", "3/C06"),
+ "C08": ("exploration", "simulated-node trace monitor: real watcher under the real supervisor against a versioned ground-truth chain; safety oracle per forwarded message; fault injection at the REST boundary; child processes; race detector",
+         "The real alephium.Watcher polls a simulated full node (ten REST endpoints over a ground-truth model of blocks, main-chain flags, heights, the core contract's append-only event log, per-transaction events of several contracts, token metadata). Scripts mutate the chain (blocks, reorgs with/without re-inclusion - also exactly at a main-chain query -, height advances and stalls, consistency levels {0,1,2,10,204,205,206,254}, foreign senders, look-alike events of another contract in the same tx, mismatching / unverifiable attestations, mainnet on/off), send re-observation requests at every stage and inject HTTP 500 / malformed JSON on any endpoint. Every forwarded message is matched with the ground-truth entry it was made from and must, in the chain version current at its arrival or the one before, come from the core contract with the token bridge as sender, in a main-chain block, at sufficient height, with matching attestation metadata and (mainnet transfer) past the time floor; an event is forwarded at most once plus once per re-observation request. Watcher crashes are observed as child-process exits.",
+         "Simulated node, not a real Alephium node; block timestamps placed >= 10 min from the time floor.", "3/C08"),
+ "C09": ("exploration", "simulated-node trace monitor with request-interleaving hooks: bounded-progress liveness oracle, spin / restart / crash detection from the request log; child processes; race detector",
+         "Same simulator; events are appended between the count answer and the page answers (0/1/page/page+1 of them), pages are 1/2/3/100 events, and batches mix well-formed token-bridge messages (incl. target 65535, consistency 255, sequence near 2^64) with foreign-sender events, attestation-shaped events naming contracts whose metadata calls fail in seven ways and twelve kinds of malformed events. After the last mutation, within 6 further completed poll rounds every expected token-bridge message must have been forwarded exactly once; the request log must show no run of > 50 identical page requests (spin) and only one watcher start (no restart caused by event content); a watcher crash is a child-process exit attributed to its innermost repository frame.",
+         "Liveness restated as bounded progress in poll rounds; quiescence detected through a read-only hook on the watcher's height-poller switch plus arrival stability.", "3/C09"),
  "C11": ("exploration", "intent-based runtime oracle on the real event conversion (hook), exported converters and parseAttestToken; attestation payloads built by the concatenation interpreted from token_bridge.ral",
          "Events whose six fields are drawn from the property's boundary list, random in-range values, negatives, non-numeric strings, wrong type tags / Val kinds, wrong field counts, senders and nonces of wrong length are converted by the real code; if every generated value fits, the message must carry exactly those values, the block timestamp (ms exact), the tx id and the Alephium chain id, otherwise the conversion must return an error; a panic is a violation. Contract id <-> address and hex conversions are checked to be inverse on random ids, and attestation payloads built by interpreting attestToken's ++ concatenation must parse back to the same id/decimals/symbol/name.",
          "Direct calls (no watcher, no node) - the watcher-level behaviour is C08/C09.", "3/C11"),
